@@ -50,8 +50,17 @@ def vm_float_obligations(prop="C02"):
     return obs
 
 
+def vm_slice_obligation(prop="C02"):
+    o = vmstep.step(prop, "%s.vm.ARR_SLICE" % prop, "h_c02_slice", "ARR_SLICE", must_have=[r"C02\.vm ARR_SLICE", r"COVER"], timeout=900,
+                    witness=None)
+    o["defines"].update({"VERIF_M0": 128, "VERIF_M1": 128, "VERIF_M2": 4, "VERIF_STACK_SIZE": 5, "VERIF_ARR_CAP": 3})
+    o["unwind"] = 5
+    o["strength"] = "B(source array capacity <= 3, int elements; start and length over the full int64 range)"
+    return [o]
+
+
 def obligations(repo):
-    obs = vm_obligations() + vm_float_obligations()
+    obs = vm_obligations() + vm_float_obligations() + vm_slice_obligation()
     try:
         import c02_native
         obs += c02_native.native_obligations("C02")
